@@ -481,3 +481,36 @@ def text_forms(skb, k):
             return 'harness-empty-reference'
         return 'ok' if got == want else f'filter-and-where-not-combined-as-a-conjunction: {f}'
     return native(run)
+
+
+@cond('C13.history.clear-pair', quick=120,
+      bounds='skeletons A and B, one connection: two statements with the same OPEN / CLOSE values of which exactly one has CLEAR, in either '
+             'order, for 4 periods; and a statement with clauses whose WHERE holds an IN-subquery with its own FROM filter and no '
+             'clauses: every result equals the result on a fresh connection / the membership computed from the subquery run alone',
+      symbolic='(none)', enumerated='skeleton, period, order, form', params={'skb': bool, 'k': int, 'swap': bool, 'nested': bool},
+      note='solver-enumerated and executed natively')
+def history_clear_pair(skb, k, swap, nested):
+    period = pick(['OPEN ON 2019-01-05 CLOSE ON 2019-02-05', 'CLOSE ON 2019-01-16', 'OPEN ON 2019-01-12', 'CLOSE'], k)
+    skb, swap, nested = bool(skb), bool(swap), bool(nested)
+
+    def run():
+        entries, _, options = ledger.load(SKELETON_B if skb else SKELETON_A)
+        targets = 'date, flag, account, position'
+
+        def rows_of(conn, text):
+            return [tuple(r) for r in conn.execute(text).fetchall()]
+        if nested:
+            outer = f"SELECT {targets} FROM {period} CLEAR WHERE account IN (SELECT account FROM year = 2019 WHERE number > 100)"
+            members = {r[0] for r in rows_of(_conn(entries, options), 'SELECT account FROM year = 2019 WHERE number > 100')}
+            full = rows_of(_conn(entries, options), f'SELECT {targets} FROM {period} CLEAR')
+            want = [r for r in full if r[2] in members]
+            got = rows_of(_conn(entries, options), outer)
+            return 'ok' if got == want and want else 'subquery-inherits-the-clauses-of-the-enclosing-statement'
+        plain, cleared = f'SELECT {targets} FROM {period}', f'SELECT {targets} FROM {period} CLEAR'
+        first, second = (cleared, plain) if swap else (plain, cleared)
+        conn = _conn(entries, options)
+        rows_of(conn, first)
+        if rows_of(conn, second) != rows_of(_conn(entries, options), second):
+            return 'clear-depends-on-an-earlier-statement-with-the-same-period'
+        return 'ok'
+    return native(run)
